@@ -286,7 +286,7 @@ Section Generic.
   Proof.
     intros Hk H. unfold ghost_step.
     destruct (gflag st) eqn:Ef; [intro F; rewrite Ef in F; discriminate F|].
-    specialize (H eq_refl). cbv zeta.
+    specialize (H Ef). cbv zeta.
     pose proof (gpivot_row_range n (ga st) (gsc st) k Hk) as Hp.
     destruct (partial_pivot n (ga st) (gb st) (gsc st) k) as [[a1 b1] s1] eqn:EP.
     destruct (gpartial_pivot_pt n _ _ _ k a1 b1 s1 EP) as [Ea1 Eb1].
@@ -362,3 +362,172 @@ Section Generic.
       apply chain_ext; intros t Ht; [rewrite Llt by lia|]; reflexivity.
   Qed.
 End Generic.
+
+(* ======================================================================================== *)
+(* Part B — binary64: the bounds that follow from the recurrences                            *)
+Local Open Scope R_scope.
+Local Notation pfloat := PrimFloat.float.
+
+(* unit lower triangular L, upper triangular U satisfying the chain recurrences [PFinal] from the rows of A
+   permuted by s: |L U - P A| <= ((1+eps)^n - 1) |L| |U| entry by entry (the argument of Proofs/PLUFloat.v,
+   here for any pair of factors with these recurrences) *)
+Lemma pfinal_float_backward_error (n : nat) (A L U : mat pfloat) (s : nat -> nat) :
+  PFinal n A s L U ->
+  (forall i k, (i < n)%nat -> (k < n)%nat -> plu_entry_ok (fun r c => A (s r) c) L U i k) ->
+  forall i k, (i < n)%nat -> (k < n)%nat ->
+    ffin (L i k) /\ ffin (U i k) /\
+    Rabs (msum 0 n (fun t => FR (L i t) * FR (U t k)) - FR (A (s i) k))
+    <= ((1 + feps) ^ n - 1) * msum 0 n (fun t => Rabs (FR (L i t)) * Rabs (FR (U t k))).
+Proof.
+  intros [I1 I2 I3 I4 I5] Hok i k Hi Hk.
+  pose proof FR_zero as [Z0 ZF]. pose proof FR_one as [O1 OF].
+  assert (L0 : forall t, (i < t < n)%nat -> L i t = PrimFloat.zero).
+  { intros t Ht. apply (I5 i t); lia. }
+  assert (U0 : forall t, (k < t < n)%nat -> U t k = PrimFloat.zero).
+  { intros t Ht. apply (I2 t k); lia. }
+  assert (L1 : L i i = PrimFloat.one) by (apply (I4 i); lia).
+  pose (xs := fun j : nat => L i j). pose (ys := fun j : nat => U j k).
+  specialize (Hok i k Hi Hk). unfold plu_entry_ok in Hok. cbv zeta in Hok. cbv beta in Hok.
+  change (fun j : nat => L i j) with xs in Hok. change (fun j : nat => U j k) with ys in Hok.
+  destruct (le_lt_dec i k) as [Hik|Hki].
+  - rewrite (Nat.min_l i k Hik) in Hok.
+    destruct Hok as [Hmul [Hf _]].
+    assert (Ex : U i k = chain (A (s i) k) xs ys i) by exact (I1 i k Hi Hk Hik).
+    pose proof (plu_upper_entry_float_error (A (s i) k) xs ys i n ltac:(lia) Hmul Hf) as R.
+    cbv zeta in R. rewrite <- Ex in R.
+    pose proof (Hf i (le_n i)) as Fu. fold (ffin (chain (A (s i) k) xs ys i)) in Fu. rewrite <- Ex in Fu.
+    split; [|split; [exact Fu|]].
+    + destruct (Nat.eq_dec i k) as [Eik|Hne]; [rewrite <- Eik, L1; exact OF|].
+      rewrite (L0 k) by lia. exact ZF.
+    + rewrite (msum_trunc (S i) n) by (try lia; intros t Ht; rewrite (L0 t) by lia; rewrite Z0; ring).
+      rewrite (msum_trunc (S i) n (fun t => Rabs (FR (L i t)) * Rabs (FR (U t k))))
+        by (try lia; intros t Ht; rewrite (L0 t) by lia; rewrite Z0, Rabs_R0; ring).
+      cbn [msum]. rewrite Nat.add_0_l, L1, O1, Rabs_R1, !Rmult_1_l, !msum_RsumN.
+      rewrite (RsumN_ext (fun t => Rabs (FR (L i t)) * Rabs (FR (U t k)))
+                         (fun t => Rabs (FR (xs t) * FR (ys t))) i)
+        by (intros t _; rewrite Rabs_mult; reflexivity).
+      exact R.
+  - rewrite (Nat.min_r i k ltac:(lia)) in Hok.
+    destruct Hok as [Hmul [Hf Hdiv]]. specialize (Hdiv Hki).
+    assert (Ex : L i k = PrimFloat.div (chain (A (s i) k) xs ys k) (U k k)) by exact (I3 i k Hi Hk Hki).
+    destruct (plu_lower_entry_float_error (A (s i) k) xs ys k n (U k k) ltac:(lia) Hmul Hf Hdiv) as [Fl R].
+    rewrite <- Ex in Fl, R.
+    split; [exact Fl|]. split; [rewrite (I2 i k Hi Hk) by lia; exact ZF|].
+    rewrite (msum_trunc (S k) n) by (try lia; intros t Ht; rewrite (U0 t) by lia; rewrite Z0; ring).
+    rewrite (msum_trunc (S k) n (fun t => Rabs (FR (L i t)) * Rabs (FR (U t k))))
+      by (try lia; intros t Ht; rewrite (U0 t) by lia; rewrite Z0, Rabs_R0; ring).
+    cbn [msum]. rewrite Nat.add_0_l, !msum_RsumN.
+    rewrite (RsumN_ext (fun t => Rabs (FR (L i t)) * Rabs (FR (U t k)))
+                       (fun t => Rabs (FR (xs t) * FR (ys t))) k)
+      by (intros t _; rewrite Rabs_mult; reflexivity).
+    rewrite <- Rabs_mult. exact R.
+Qed.
+
+(* hypotheses on the computation of entry i of the right-hand side: the chain of i updates from
+   Pb i = b (s i) with the multipliers of row i and the final right-hand side y; no division *)
+Definition ge_rhs_ok (Pb : vec PrimFloat.float) (L : mat PrimFloat.float) (y : vec PrimFloat.float) (i : nat) : Prop :=
+  let r := fun t => chain (Pb i) (fun j => L i j) y t in
+  (forall j, (j < i)%nat -> okmul (L i j) (y j)) /\
+  (forall t, (t <= i)%nat -> is_finite (Prim2B (r t)) = true).
+
+(* the right-hand side is one more column: | L y - P b | <= ((1+eps)^n - 1) |L| |y| *)
+Lemma rhs_float_backward_error (n : nat) (b y : vec pfloat) (L : mat pfloat) (s : nat -> nat) :
+  (forall r, (r < n)%nat -> L r r = PrimFloat.one) ->
+  (forall r c, (r < n)%nat -> (c < n)%nat -> (r < c)%nat -> L r c = PrimFloat.zero) ->
+  (forall r, (r < n)%nat -> y r = chain (b (s r)) (fun t => L r t) y r) ->
+  (forall i, (i < n)%nat -> ge_rhs_ok (fun r => b (s r)) L y i) ->
+  forall i, (i < n)%nat ->
+    ffin (y i) /\
+    Rabs (msum 0 n (fun t => FR (L i t) * FR (y t)) - FR (b (s i)))
+    <= ((1 + feps) ^ n - 1) * msum 0 n (fun t => Rabs (FR (L i t)) * Rabs (FR (y t))).
+Proof.
+  intros I4 I5 Iy Hok i Hi.
+  pose proof FR_zero as [Z0 ZF]. pose proof FR_one as [O1 OF].
+  assert (L0 : forall t, (i < t < n)%nat -> L i t = PrimFloat.zero).
+  { intros t Ht. apply (I5 i t); lia. }
+  pose proof (I4 i Hi) as L1.
+  pose (xs := fun j : nat => L i j).
+  specialize (Hok i Hi). unfold ge_rhs_ok in Hok. cbv zeta in Hok. cbv beta in Hok.
+  change (fun j : nat => L i j) with xs in Hok.
+  destruct Hok as [Hmul Hf].
+  assert (Ex : y i = chain (b (s i)) xs y i) by exact (Iy i Hi).
+  pose proof (plu_upper_entry_float_error (b (s i)) xs y i n ltac:(lia) Hmul Hf) as R.
+  cbv zeta in R. rewrite <- Ex in R.
+  pose proof (Hf i (le_n i)) as Fu. fold (ffin (chain (b (s i)) xs y i)) in Fu. rewrite <- Ex in Fu.
+  split; [exact Fu|].
+  rewrite (msum_trunc (S i) n) by (try lia; intros t Ht; rewrite (L0 t) by lia; rewrite Z0; ring).
+  rewrite (msum_trunc (S i) n (fun t => Rabs (FR (L i t)) * Rabs (FR (y t))))
+    by (try lia; intros t Ht; rewrite (L0 t) by lia; rewrite Z0, Rabs_R0; ring).
+  cbn [msum]. rewrite Nat.add_0_l, L1, O1, Rabs_R1, !Rmult_1_l, !msum_RsumN.
+  rewrite (RsumN_ext (fun t => Rabs (FR (L i t)) * Rabs (FR (y t)))
+                     (fun t => Rabs (FR (xs t) * FR (y t))) i)
+    by (intros t _; rewrite Rabs_mult; reflexivity).
+  exact R.
+Qed.
+
+(* ======================================================================================== *)
+(* Part C — Gaussian elimination                                                             *)
+Theorem ge_float_backward_error : forall (n : nat) (A : mat PrimFloat.float) (b : vec PrimFloat.float)
+                                         (tol : PrimFloat.float) (x : vec PrimFloat.float),
+  ge n n A n b tol = Ok x ->
+  let s := ge_perm n tol A b in
+  let L := ge_L n tol A b in
+  let U := ge_U n tol A b in
+  let y := ge_y n tol A b in
+  perm_on n s /\
+  back_substitution (ge_W n tol A b) n y (vconst n0) = Ok x /\
+  (forall i k, (i <= k)%nat -> U i k = ge_W n tol A b i k) /\
+  ((forall i k, (i < n)%nat -> (k < n)%nat -> plu_entry_ok (fun r c => A (s r) c) L U i k) ->
+   forall i k, (i < n)%nat -> (k < n)%nat ->
+     is_finite (Prim2B (L i k)) = true /\ is_finite (Prim2B (U i k)) = true /\
+     Rabs (mprod n (fun r c => B2R (Prim2B (L r c))) (fun r c => B2R (Prim2B (U r c))) i k
+           - B2R (Prim2B (A (s i) k)))
+     <= ((1 + bpow radix2 (-53)) ^ n - 1)
+        * mprod n (fun r c => Rabs (B2R (Prim2B (L r c)))) (fun r c => Rabs (B2R (Prim2B (U r c)))) i k) /\
+  ((forall i, (i < n)%nat -> ge_rhs_ok (fun r => b (s r)) L y i) ->
+   forall i, (i < n)%nat ->
+     is_finite (Prim2B (y i)) = true /\
+     Rabs (msum 0 n (fun t => B2R (Prim2B (L i t)) * B2R (Prim2B (y t))) - B2R (Prim2B (b (s i))))
+     <= ((1 + bpow radix2 (-53)) ^ n - 1)
+        * msum 0 n (fun t => Rabs (B2R (Prim2B (L i t))) * Rabs (B2R (Prim2B (y t))))).
+Proof.
+  intros n A b tol x E. cbv zeta.
+  destruct (ge_ok_final n A b tol x E) as [Hp [Hb [HF Hy]]].
+  split; [exact Hp|]. split; [exact Hb|]. split; [|split].
+  - intros i k Hik. unfold ge_U, ge_W, plu_upper. destruct (Nat.leb_spec i k); [reflexivity|lia].
+  - intros Hok i k Hi Hk.
+    exact (pfinal_float_backward_error n A _ _ _ HF Hok i k Hi Hk).
+  - intros Hok i Hi.
+    destruct HF as [_ _ _ I4 I5].
+    exact (rhs_float_backward_error n b _ _ _ I4 I5 Hy Hok i Hi).
+Qed.
+
+(* ---- non-vacuity: A = [[1,2,3],[4,5,6],[7,8,10]], b = [1,2,3], tol = 1e-12: scaled pivoting interchanges
+   rows twice (P A = rows 2, 0, 1 of A); the multipliers 1/7, 4/7, 1/2 are inexact ---- *)
+Definition ex_ge_a : mat PrimFloat.float :=
+  mat_of_lists [[0x1p+0; 0x1p+1; 0x1.8p+1]; [0x1p+2; 0x1.4p+2; 0x1.8p+2]; [0x1.cp+2; 0x1p+3; 0x1.4p+3]]%float.
+Definition ex_ge_b : vec PrimFloat.float := vec_of_list [0x1p+0; 0x1p+1; 0x1.8p+1]%float.
+Definition ex_ge_tol : PrimFloat.float := 0x1.19799812dea11p-40%float.
+
+Example ex_ge_float_hyps :
+  (exists x, ge 3 3 ex_ge_a 3 ex_ge_b ex_ge_tol = Ok x) /\
+  (forall i, (i < 3)%nat -> ge_perm 3 ex_ge_tol ex_ge_a ex_ge_b i = match i with 0 => 2 | 1 => 0 | _ => 1 end%nat) /\
+  (forall i k, (i < 3)%nat -> (k < 3)%nat ->
+     plu_entry_ok (fun r c => ex_ge_a (ge_perm 3 ex_ge_tol ex_ge_a ex_ge_b r) c)
+                  (ge_L 3 ex_ge_tol ex_ge_a ex_ge_b) (ge_U 3 ex_ge_tol ex_ge_a ex_ge_b) i k) /\
+  (forall i, (i < 3)%nat ->
+     ge_rhs_ok (fun r => ex_ge_b (ge_perm 3 ex_ge_tol ex_ge_a ex_ge_b r))
+               (ge_L 3 ex_ge_tol ex_ge_a ex_ge_b) (ge_y 3 ex_ge_tol ex_ge_a ex_ge_b) i).
+Proof.
+  split; [eexists; vm_compute; reflexivity|]. split; [|split].
+  - intros i Hi. destruct i as [|[|[|i]]]; try lia; vm_compute; reflexivity.
+  - intros i k Hi Hk.
+    destruct i as [|[|[|i]]]; try lia; destruct k as [|[|[|k]]]; try lia;
+    unfold plu_entry_ok; cbn [Nat.min]; cbv zeta;
+    (split; [intros j Hj; destruct j as [|[|j]]; try lia; okmul_compute|]; split;
+     [intros t Ht; destruct t as [|[|[|t]]]; try lia; fin_compute|intros Hlt; try lia; okdiv_compute]).
+  - intros i Hi.
+    destruct i as [|[|[|i]]]; try lia; unfold ge_rhs_ok; cbv zeta;
+    (split; [intros j Hj; destruct j as [|[|j]]; try lia; okmul_compute
+            |intros t Ht; destruct t as [|[|[|t]]]; try lia; fin_compute]).
+Qed.
